@@ -114,6 +114,7 @@ type Result struct {
 	Trace    []string       `json:"trace,omitempty"`
 	Known    map[string]int `json:"known,omitempty"`
 	crashed  bool
+	shutdownDeath bool
 	stderr   string
 }
 
@@ -376,6 +377,7 @@ func runWorker(j job, extraEnv []string, timeout time.Duration) (results []Resul
 	inRun := false
 	done := false
 	hardTimeout := false
+	var provisional *Result
 	var other []string
 	for sc.Scan() {
 		line := sc.Text()
@@ -390,7 +392,14 @@ func runWorker(j job, extraEnv []string, timeout time.Duration) (results []Resul
 		case 'B':
 			cur, _ = strconv.ParseUint(strings.TrimSpace(rest[2:]), 10, 64)
 			inRun = true
+		case 'P':
+			// provisional verdict of the run in progress (emitted before the harness tears the system down)
+			var r Result
+			if err := json.Unmarshal([]byte(rest[2:]), &r); err == nil {
+				provisional = &r
+			}
 		case 'R':
+			provisional = nil
 			var r Result
 			if err := json.Unmarshal([]byte(rest[2:]), &r); err != nil {
 				return results, "bad worker line: " + err.Error()
@@ -419,6 +428,18 @@ func runWorker(j job, extraEnv []string, timeout time.Duration) (results []Resul
 		return results, ""
 	}
 	se := stderr.String() + strings.Join(other, "\n")
+	if inRun && provisional != nil && provisional.Seed == cur {
+		// the process died while the harness was shutting the system down: the run's verdict stands
+		r := *provisional
+		if r.Probes == nil {
+			r.Probes = map[string]int{}
+		}
+		r.Probes["process_died_during_shutdown"]++
+		r.crashed = true // tells the caller to resume after this index
+		r.shutdownDeath = true
+		results = append(results, r)
+		return results, ""
+	}
 	if inRun {
 		key, detail := crashKey(se)
 		if !timer.Stop() && !strings.Contains(se, "panic:") && !strings.Contains(se, "fatal error:") {
@@ -843,7 +864,7 @@ func check(prop, tier string, onlyPart string) int {
 			}
 			// a new violation class: get choices, shrink, confirm, write replay
 			r := rs[0]
-			if r.crashed {
+			if r.crashed && !r.shutdownDeath {
 				r.Choices = captureChoices(j, partSeed, int64(r.Seed-partSeed*1000003))
 			}
 			rf := ReplayFile{Property: prop, Harness: part.Harness, Part: part.Name, Pkg: part.Pkg, Seed: r.Seed, Params: params, Choices: r.Choices, Key: k, Detail: r.Detail}
